@@ -758,6 +758,11 @@ pub fn run(report: &Report, tier: &Tier) {
     run_parallel(report, n3, threads(), tier.budget_s * 0.05, |i, l| {
         slow_consumer_case(util::mix(seed, 0xC14_F000 + i), l);
     });
+    // Part A4: shutdown in the middle of an update of a renamed service
+    let n4: u64 = if tier.thorough { 10_000 } else { 200 };
+    run_parallel(report, n4, threads(), tier.budget_s * 0.05, |i, l| {
+        renamed_update_case(util::mix(seed, 0xC14_D000 + i), l);
+    });
     // Part B
     let real: u64 = if tier.thorough { 40_000 } else { 300 };
     run_parallel(report, real, threads().min(8), tier.budget_s * 0.25, |i, l| {
@@ -872,6 +877,73 @@ pub fn cleanup_race_case(seed: u64, l: &mut Local) {
             )
             .with(json!({"seed": seed, "services": services, "searches": searches, "issued_at_datagram": k, "calls": names, "trace": scen::witness(&w.trace, 30)})),
         );
+    }
+}
+
+// ---------------------------------------------------------------------------
+// Part A4: shutdown while a renamed service is being updated
+//
+// A service that lost a name conflict is announced under its new name; the application registers it again with
+// other data (the update is probed for three quarters of a second) and shuts the daemon down in the middle of
+// that: what was announced - the new name - is withdrawn on every family.
+
+pub fn renamed_update_case(seed: u64, l: &mut Local) {
+    let mut rng = Rng::new(seed);
+    let mut w = World::new(seed);
+    w.set_stepping(Stepping::Lazy);
+    let h = w.add_host_with(scen::single_dual(), |g| g.jitter_const = Some(0));
+    w.set_ip_check_interval(h, 3600);
+    let t0 = w.now();
+    let addrs: Vec<IpAddr> = vec!["10.0.0.5".parse().unwrap(), "fe80::5".parse().unwrap()];
+    let label = *rng.pick(&["contested", "Front Desk"]);
+    w.register(h, World::reg_info(T1, label, "myhost.local.", &addrs, 3000, &[("k", Some(b"v"))]));
+    let inst = scen::wire_name(&format!("{label}.{T1}"));
+    w.run_until(t0 + 20 + rng.below(600));
+    let mut m = wire::Message::response();
+    m.answers.push(wire::srv(&inst, 120, 9, &scen::wire_name("somebody-else.local.")));
+    m.answers[0].class |= wire::FLUSH;
+    w.inject_msg(h, 2, scen::peer4(77), &m);
+    w.run_until(t0 + 4000);
+    let mut new_inst = inst.clone();
+    new_inst[0] = crate::props::c08::next_instance_label(label.as_bytes());
+    let txs = scen::tx_msgs(&w.trace, h);
+    let announced_new = |v4: bool| txs.iter().any(|tx| tx.v4 == v4 && tx.msg.is_response() && tx.multicast && tx.msg.answers.iter().any(|r| r.ttl > 0 && r.rtype == wire::T_PTR && matches!(&r.rdata, wire::RData::Ptr(n) if wire::names_eq_nocase(n, &new_inst))));
+    let (ann4, ann6) = (announced_new(true), announced_new(false));
+    drop(txs);
+    // the update, and shutdown while it is being probed
+    w.register(h, World::reg_info(T1, label, "myhost.local.", &addrs, 3000, &[("k", Some(b"changed"))]));
+    let d = 5 + rng.below(700);
+    w.run_for(d);
+    let idx = w.trace.entries.len();
+    let sd = w.shutdown(h);
+    w.settle();
+    w.run_for(1000);
+    l.evaluations += 1;
+    l.distinct.insert(util::fnv_str(&format!("A4|{label}|{}", d / 50)));
+    if w.trace.deaths().any(|d| matches!(d.ev, Ev::Death { panicked: true, .. })) {
+        let p = w.trace.deaths().next().map(|d| format!("{:?}", d.ev)).unwrap_or_default();
+        l.violate(Violation::new("X5", "X5/daemon-panicked/renamed-service-being-updated", format!("the daemon thread panicked during shutdown: {}", util::strip_numbers(&p))).with(json!({"seed": seed})));
+        return;
+    }
+    if sd.is_none() || !w.hosts[h].dead || !(ann4 || ann6) {
+        l.count("renamed_update_precondition_not_met", 1);
+        return;
+    }
+    let txs = scen::tx_msgs(&w.trace, h);
+    for (v4, announced) in [(true, ann4), (false, ann6)] {
+        if !announced {
+            continue;
+        }
+        l.act("X1");
+        l.act("X1-renamed-update");
+        let byes = txs.iter().filter(|tx| tx.idx > idx && tx.v4 == v4 && tx.msg.is_response() && tx.msg.answers.iter().any(|r| r.ttl == 0 && r.rtype == wire::T_PTR && matches!(&r.rdata, wire::RData::Ptr(n) if wire::names_eq_nocase(n, &new_inst)))).count();
+        if byes == 0 {
+            l.violate(
+                Violation::new("X1", "X1/goodbye-count/none/renamed-service-being-updated", format!("the service was announced as {} over {}; shut down {d} ms into an update of it, the daemon sent no goodbye for that name", wire::escaped(&new_inst), if v4 { "IPv4" } else { "IPv6" }))
+                    .with(json!({"seed": seed, "trace": scen::witness_window(&w.trace, w.trace.entries[idx.saturating_sub(1)].t.saturating_sub(800), w.now(), 60)})),
+            );
+            return;
+        }
     }
 }
 
